@@ -323,3 +323,101 @@ func runMarchParOnly(d desc) marchOutcome {
 	o.coq = marchCoq(d, pr, pr, o)
 	return o
 }
+
+// ---- operation sequences on ONE canvas ------------------------------------------------------------------
+// (AddField | AddFieldParallel)*, (MarchParallel)(cutoff), more fields, march again ... After EVERY march the
+// canvas under test (parallel variants) is compared with a FRESH canvas built by sequential AddField of the same
+// fields in the same order and marched sequentially: chunk tables bitwise, triangle multisets.
+type opDesc struct {
+	Op     string     `json:"op"` // "add" | "march"
+	Field  *fieldDesc `json:"field,omitempty"`
+	Par    bool       `json:"par,omitempty"` // add: AddFieldParallel on the canvas under test (else AddField)
+	Cutoff float64    `json:"cutoff"`
+}
+
+func runSequence(d desc) []marchOutcome {
+	test := marching.NewMarchingCanvas(1)
+	var added []fieldDesc
+	var outs []marchOutcome
+	step := 0
+	for _, op := range d.Ops {
+		switch op.Op {
+		case "add":
+			if op.Field == nil {
+				continue
+			}
+			f := *op.Field
+			added = append(added, f)
+			func() {
+				defer func() { recover() }()
+				if op.Par {
+					test.AddFieldParallel(f.field(d.NFun))
+				} else {
+					test.AddField(f.field(d.NFun))
+				}
+			}()
+		case "march":
+			fresh := marching.NewMarchingCanvas(1)
+			for _, f := range added {
+				func() {
+					defer func() { recover() }()
+					fresh.AddField(f.field(d.NFun))
+				}()
+			}
+			sr, pr := readCanvas(fresh, d.NFun), readCanvas(test, d.NFun)
+			var o marchOutcome
+			o.canvasEq = canvasEqual(sr, pr)
+			for _, r := range sr {
+				if r.attr == 0 {
+					o.blocks++
+				}
+			}
+			sm, sp := marchMesh(func() modeling.Mesh { return fresh.March(op.Cutoff) })
+			pm, pp := marchMesh(func() modeling.Mesh { return test.MarchParallel(op.Cutoff) })
+			o.seqPanic, o.parPanic = sp, pp
+			o.marchEq = (sp == "") == (pp == "")
+			if sp == "" && pp == "" {
+				sk, pk := triKeys(sm), triKeys(pm)
+				o.tris = len(sk)
+				if len(sk) != len(pk) {
+					o.marchEq = false
+				} else {
+					for i := range sk {
+						if sk[i] != pk[i] {
+							o.marchEq = false
+							break
+						}
+					}
+				}
+				if !o.marchEq {
+					diff := 0
+					seen := map[triKey]int{}
+					for _, k := range sk {
+						seen[k]++
+					}
+					for _, k := range pk {
+						seen[k]--
+					}
+					for _, v := range seen {
+						if v != 0 {
+							diff++
+						}
+					}
+					o.detail = fmt.Sprintf("march #%d of the sequence (cutoff %g): sequential march of a fresh canvas has %d triangles, MarchParallel on the edited canvas %d; %d triangle keys differ",
+						step, op.Cutoff, len(sk), len(pk), diff)
+				}
+			} else if !o.marchEq {
+				o.detail = fmt.Sprintf("march #%d: sequential panic %q, parallel panic %q", step, sp, pp)
+			}
+			if !o.canvasEq && o.detail == "" {
+				o.detail = fmt.Sprintf("march #%d: chunk tables differ", step)
+			}
+			dd := d
+			dd.Fields = added
+			o.coq = marchCoq(dd, sr, pr, o)
+			outs = append(outs, o)
+			step++
+		}
+	}
+	return outs
+}
